@@ -104,8 +104,14 @@ def type_expr(sp, ptr, qual):
         return ("*" if ptr else "") + "TA"
     if sp == "alias3":
         return ("*" if ptr else "") + "q.TA"
+    if sp == "chain":
+        return ("*" if ptr else "") + "TA2"
     if sp == "ptralias":
         return "TP"
+    if sp == "ptrchain":
+        return "TH"
+    if sp == "ptrofalias":
+        return "TPA"
     if sp == "paren":
         return ("*" if ptr else "") + "(" + t + ")"
     raise ValueError(sp)
@@ -202,6 +208,7 @@ def build_generic(sc, sid, container_fn, d_extra=()):
     files = []
     tags = {}
     uses_alias = uses_alias3 = uses_ptralias = False
+    sps = set()
     n = 100
     for fidx, conts in enumerate(sc["files"], 1):
         out = Out("%s/f%d.go" % (pkg, fidx), pkg)
@@ -216,6 +223,7 @@ def build_generic(sc, sid, container_fn, d_extra=()):
             uses_alias |= sp == "alias"
             uses_alias3 |= sp == "alias3"
             uses_ptralias |= sp == "ptralias"
+            sps.add(sp)
             text = "\n".join(hdr + pre + [stmt] + post + ftr)
             if "d." in text:
                 body_uses_d = True
@@ -237,10 +245,16 @@ def build_generic(sc, sid, container_fn, d_extra=()):
     # handles file: package-level variables, helper types, aliases
     h = Out("%s/zz_handles.go" % pkg, pkg)
     h.add("var cond bool", "var ch chan int", "", "func run(f func()) { f() }", "", "// O is an un-annotated local type.", "type O struct{ X int }", "")
-    if uses_alias:
+    if sps & {"alias", "chain", "ptrofalias"}:
         h.add("type TA = %sT" % qual, "")
-    if uses_ptralias:
+    if "chain" in sps:
+        h.add("type TA2 = TA", "")
+    if sps & {"ptralias", "ptrchain"}:
         h.add("type TP = *%sT" % qual, "")
+    if "ptrchain" in sps:
+        h.add("type TH = TP", "")
+    if "ptrofalias" in sps:
+        h.add("type TPA = *TA", "")
     h.add("var _ %sU" % qual, "")
     for l in handles:
         h.add(l)
@@ -299,7 +313,7 @@ def ctor_ann(ann):
 
 def ctor_container(c, n, pkg, qual, handles):
     sp = c.get("sp", "direct")
-    t = {"direct": qual + "T", "rename": qual + "T", "alias": "TA", "alias3": "q.TA", "paren": "(" + qual + "T)", "fnalias": "R"}[sp]
+    t = {"direct": qual + "T", "rename": qual + "T", "alias": "TA", "alias3": "q.TA", "chain": "TA2", "paren": "(" + qual + "T)", "fnalias": "R"}[sp]
     k = c["kind"]
     tmpl = CTOR_STMT[c["stmt"]][1 if k == "pkgdecl" else 0]
     stmt = tmpl % {"t": t, "n": n, "q": qual}
